@@ -61,6 +61,16 @@ pub fn check_bytes(bytes: &[u8], st: &mut Stats, decoded: &dyn Fn() -> String) -
         st.count("not_loadable");
         return Ok(());
     };
+    // the word-slice entry point must yield the same module (two different modules cannot both
+    // reproduce the input and reload to themselves)
+    if bytes.len() % 4 == 0 {
+        if let Ok(mw) = load_words(&bytes_to_words(bytes)).map_err(wrap)? {
+            if let Some(d) = module_diff(&module, &mw) {
+                return Err(wrap(Fail::new("entry-points-disagree", "load_words-vs-load_bytes", d)));
+            }
+            st.count("load_words_agrees");
+        }
+    }
     let rp = ref_parse(bytes);
     let clean = matches!(rp.end, End::Clean | End::Stray(_)) && rp.header.is_ok();
     if !clean {
